@@ -6,7 +6,7 @@ use std::time::{Duration, Instant};
 use crate::check::{execute, session_size, Violation};
 use crate::spec::*;
 
-fn still_fails(judge: &str, s: &SessionSpec, r: Option<&SessionSpec>, v: &Violation, same_program: bool) -> Option<Violation> {
+fn still_fails(judge: &str, s: &SessionSpec, r: &[SessionSpec], v: &Violation, same_program: bool) -> Option<Violation> {
     let vs = execute(judge, s, r, Duration::from_secs(120)).ok()?;
     vs.into_iter().find(|w| {
         if w.class != v.class {
@@ -19,17 +19,17 @@ fn still_fails(judge: &str, s: &SessionSpec, r: Option<&SessionSpec>, v: &Violat
     })
 }
 
-pub fn minimise(judge: &str, session: &SessionSpec, reference: Option<&SessionSpec>, v: &Violation, budget: Duration) -> (SessionSpec, Option<SessionSpec>, Violation) {
+pub fn minimise(judge: &str, session: &SessionSpec, reference: &[SessionSpec], v: &Violation, budget: Duration) -> (SessionSpec, Vec<SessionSpec>, Violation) {
     let start = Instant::now();
     let mut best = session.clone();
     let mut best_v = v.clone();
-    let reference = reference.cloned();
+    let reference: Vec<SessionSpec> = reference.to_vec();
     let over = |start: &Instant| start.elapsed() > budget;
     macro_rules! attempt {
         ($cand:expr, $same:expr) => {{
             let cand: SessionSpec = $cand;
             if session_size(&cand) < session_size(&best) || serde_json::to_string(&cand).unwrap().len() < serde_json::to_string(&best).unwrap().len() {
-                if let Some(w) = still_fails(judge, &cand, reference.as_ref(), &best_v, $same) {
+                if let Some(w) = still_fails(judge, &cand, &reference, &best_v, $same) {
                     best = cand;
                     best_v = w;
                     true
@@ -181,7 +181,7 @@ pub fn minimise(judge: &str, session: &SessionSpec, reference: Option<&SessionSp
             if let Some(w) = res.worlds.get(wi) {
                 let mut c = best.clone();
                 c.worlds[wi].sched.policy = crate::sched::Policy::Explicit { switches: w.sched.switches.clone() };
-                if let Some(vv) = still_fails(judge, &c, reference.as_ref(), &best_v, false) {
+                if let Some(vv) = still_fails(judge, &c, &reference, &best_v, false) {
                     best = c;
                     best_v = vv;
                     // drop switches one at a time (from the end)
@@ -197,7 +197,7 @@ pub fn minimise(judge: &str, session: &SessionSpec, reference: Option<&SessionSp
                                 switches.remove(k);
                             }
                         }
-                        if let Some(vv) = still_fails(judge, &c, reference.as_ref(), &best_v, false) {
+                        if let Some(vv) = still_fails(judge, &c, &reference, &best_v, false) {
                             best = c;
                             best_v = vv;
                         }
@@ -218,7 +218,7 @@ pub fn minimise(judge: &str, session: &SessionSpec, reference: Option<&SessionSp
             n.ref_backing = false;
             n.hash_seed = 0;
             if serde_json::to_string(&c).unwrap() != serde_json::to_string(&best).unwrap() {
-                if let Some(vv) = still_fails(judge, &c, reference.as_ref(), &best_v, false) {
+                if let Some(vv) = still_fails(judge, &c, &reference, &best_v, false) {
                     best = c;
                     best_v = vv;
                 }
